@@ -404,3 +404,110 @@ class CachedDirReadOnly(ReadOnlyMem):
 WRAPPERS = [CachedDirMem, CachedDirOS, CachedDirSub, SubCachedDir, ReadOnlyMem, ReadOnlyOS, ReadOnlyCachedDir,
             CachedDirReadOnly]
 BY_NAME.update((b.name, b) for b in WRAPPERS)
+
+
+# ---------------------------------------------------------------- compositions that GROW while they are in use
+# (NOT in ALL; C01 adds them to its backend list).  The composition is queried before and between the additions, so
+# whatever it caches about its members (sorted member sequence, mount table) is built before the members are complete.
+# run_histories() calls tick(k) before call k of a history.
+
+def _use(fs):
+    """A few queries, whatever they answer (a MultiFS without members has not even a root)."""
+    for call in (lambda: fs.exists("/"), lambda: fs.listdir("/"), lambda: fs.isdir("a"), lambda: fs.getinfo("/"),
+                 lambda: list(fs.walk.files())):
+        try:
+            call()
+        except Exception:  # noqa
+            pass
+
+
+class MultiLate(Backend):
+    """MultiFS used before it has any member; the write layer (priority 10) comes after the first queries, then -
+    between the calls of the history - a read-only VIEW of the write layer's storage with the default priority, and
+    empty members with default, lower and higher priorities.  Every member shows the one storage (or nothing), so the
+    reference semantics applies as long as the write layer is searched before the read-only view of it."""
+    name = "MultiFS(write layer and lower-priority members added after first use)"
+    write_priority = 10
+    late = {0: ("view", 0), 2: ("empty0", 0), 4: ("emptylow", -3), 6: ("emptyhigh", 50), 8: ("view2", 0)}
+
+    def make(self):
+        from fs.multifs import MultiFS
+        from fs.memoryfs import MemoryFS
+        self.fs = MultiFS()
+        _use(self.fs)
+        self.inner = MemoryFS()
+        self.fs.add_fs("w", self.inner, write=True, priority=self.write_priority)
+        _use(self.fs)
+        return self.fs
+
+    def tick(self, k):
+        from fs.memoryfs import MemoryFS
+        from fs.wrap import read_only
+        if k in self.late:
+            name, prio = self.late[k]
+            _use(self.fs)
+            member = read_only(self.inner) if name.startswith("view") else MemoryFS()
+            if prio == 0:
+                self.fs.add_fs(name, member)            # the default priority, not spelled out
+            else:
+                self.fs.add_fs(name, member, priority=prio)
+
+    def snapshot(self):
+        return fsops.snap_memoryfs(self.inner)
+
+
+class MultiLateDefault(MultiLate):
+    """The same with a default-priority write layer above views of negative priority."""
+    name = "MultiFS(default-priority write layer added after first use, members below it added later)"
+    write_priority = 0
+    late = {0: ("view", -1), 1: ("empty0", -1), 3: ("emptylow", -3), 5: ("view2", -2)}
+
+    def make(self):
+        from fs.multifs import MultiFS
+        from fs.memoryfs import MemoryFS
+        self.fs = MultiFS()
+        _use(self.fs)
+        self.fs.add_fs("first", MemoryFS(), priority=-5)
+        _use(self.fs)
+        self.inner = MemoryFS()
+        self.fs.add_fs("w", self.inner, write=True)
+        return self.fs
+
+
+class MountLate(Backend):
+    """MountFS used before anything is mounted; the filesystem under test is mounted after the first queries, further
+    filesystems are mounted (beside it, below a deeper path) between the calls of the history."""
+    name = "MountFS/m (mounted after first use, more mounts added later)"
+    late = {0: "mm", 2: "n/deep", 5: "m2", 7: "n/other"}
+
+    def make(self):
+        from fs.mountfs import MountFS
+        from fs.memoryfs import MemoryFS
+        self.m = MountFS()
+        _use(self.m)
+        self.inner = MemoryFS()
+        self.m.mount("m", self.inner)
+        _use(self.m)
+        self.fs = self.m.opendir("m")
+        self.others = []
+        return self.fs
+
+    def tick(self, k):
+        from fs.memoryfs import MemoryFS
+        if k in self.late:
+            _use(self.m)
+            o = MemoryFS()
+            o.writebytes("canary", b"canary")
+            self.others.append(o)
+            self.m.mount(self.late[k], o)
+
+    def snapshot(self):
+        return fsops.snap_memoryfs(self.inner)
+
+    def outside_changed(self):
+        bad = [i for i, o in enumerate(self.others) if o.listdir("/") != ["canary"] or o.readbytes("canary") != b"canary"]
+        return bad or None
+
+
+GROWING = [MultiLate, MultiLateDefault, MountLate]
+BY_NAME.update((b.name, b) for b in GROWING)
